@@ -629,3 +629,32 @@ pub fn first_param_may_not_self(typ: &LuaType) -> bool {
     }
     false
 }
+
+/// Entry counts of every map of this index (verification hook, add-only, off by default).
+#[cfg(feature = "verif")]
+impl LuaTypeIndex {
+    pub fn verif_sizes(&self) -> Vec<(String, usize)> {
+        let p = "type";
+        let mut v: Vec<(String, usize)> = Vec::new();
+        let mut put = |name: &str, n: usize| v.push((format!("{p}.{name}"), n));
+        put("file_namespace", self.file_namespace.len());
+        put("file_using_namespace", self.file_using_namespace.len());
+        put("file_types", self.file_types.len());
+        put("file_types.items", self.file_types.values().map(|s| s.len()).sum());
+        put("full_name_type_map", self.full_name_type_map.len());
+        put("full_name_type_map.locations", self.full_name_type_map.values().map(|d| d.get_locations().len()).sum());
+        put("generic_params", self.generic_params.len());
+        put("supers", self.supers.len());
+        put("supers.items", self.supers.values().map(|s| s.len()).sum());
+        put("types", self.types.len());
+        put("in_filed_type_owner", self.in_filed_type_owner.len());
+        put("in_filed_type_owner.items", self.in_filed_type_owner.values().map(|s| s.len()).sum());
+        put("global_name_type_map", self.global_name_type_map.len());
+        put("internal_name_type_map", self.internal_name_type_map.len());
+        put("internal_name_type_map.items", self.internal_name_type_map.values().map(|s| s.len()).sum());
+        put("local_name_type_map", self.local_name_type_map.len());
+        put("local_name_type_map.items", self.local_name_type_map.values().map(|s| s.len()).sum());
+
+        v
+    }
+}
